@@ -1,6 +1,326 @@
 """Helpers shared by the obligations (run both under the engine and in replay)."""
+import uuid as _uuid
+
+from ..vars import Violation
 
 
 def format_cardinality_real(value):
     from odml.util import format_cardinality
     return format_cardinality(value)
+
+
+# --------------------------------------------------------------------------
+# raw access to child lists (SmartList overrides __getitem__/__contains__/index
+# with name-based semantics; the oracles must not depend on them)
+
+def raw(lst):
+    return list(list.__iter__(lst))
+
+
+def is_doc(obj):
+    from odml.doc import BaseDocument
+    return isinstance(obj, BaseDocument)
+
+
+def is_sec(obj):
+    from odml.section import BaseSection
+    return isinstance(obj, BaseSection)
+
+
+def is_prop(obj):
+    from odml.property import BaseProperty
+    return isinstance(obj, BaseProperty)
+
+
+def child_lists(obj):
+    """[(kind, raw list)] of the child lists of a container."""
+    out = []
+    if is_doc(obj) or is_sec(obj):
+        out.append(("sections", raw(obj._sections)))
+    if is_sec(obj):
+        out.append(("properties", raw(obj._props)))
+    return out
+
+
+def closure(objs, limit=64):
+    """Everything reachable from objs through parents and child lists (by identity)."""
+    seen = []
+    todo = list(objs)
+    while todo:
+        cur = todo.pop(0)
+        if cur is None or any(cur is s for s in seen):
+            continue
+        seen.append(cur)
+        if len(seen) > limit:
+            raise Violation("object graph larger than %d objects (runaway structure)" % limit)
+        if not is_doc(cur):
+            todo.append(getattr(cur, "_parent", None))
+        for _kind, lst in child_lists(cur):
+            todo.extend(lst)
+    return seen
+
+
+def index_of(obj, objs):
+    for i, cand in enumerate(objs):
+        if cand is obj:
+            return i
+    return -1
+
+
+def ancestors(obj, bound):
+    """Parent chain of obj (excluding obj); raises Violation on a chain longer than bound."""
+    chain = []
+    cur = obj
+    for _ in range(bound + 2):
+        par = None if is_doc(cur) else cur._parent
+        if par is None:
+            return chain
+        chain.append(par)
+        cur = par
+    raise Violation("parent chain does not end (cycle)")
+
+
+def wf_problems(objs):
+    """C03: well-formed tree predicate over the closure of objs. Returns first problem or None."""
+    allobjs = closure(objs)
+    n = len(allobjs)
+    # every listed child points back, once per list, in one list only
+    owners = {}
+    for cont in allobjs:
+        for kind, lst in child_lists(cont):
+            for pos, child in enumerate(lst):
+                if kind == "sections" and not is_sec(child):
+                    return "non-Section in a sections list"
+                if kind == "properties" and not is_prop(child):
+                    return "non-Property in a properties list"
+                if child._parent is not cont:
+                    return "a listed child does not report its container as parent"
+                for other in lst[pos + 1:]:
+                    if other is child:
+                        return "an object is listed twice in one child list"
+                key = id(child)
+                if key in owners and owners[key] is not cont:
+                    return "an object is listed in the child lists of two containers"
+                owners[key] = cont
+    # every object with a parent is contained in that parent's list
+    for obj in allobjs:
+        if is_doc(obj):
+            continue
+        par = obj._parent
+        if par is None:
+            continue
+        if not (is_doc(par) or is_sec(par)):
+            return "parent is not a Document or Section"
+        found = 0
+        for _kind, lst in child_lists(par):
+            found += sum(1 for c in lst if c is obj)
+        if found != 1:
+            return "an object reports a parent that does not list it exactly once"
+    # acyclic, document is the root of the chain
+    for obj in allobjs:
+        if is_doc(obj):
+            continue
+        try:
+            chain = ancestors(obj, n)
+        except Violation as exc:
+            return str(exc)
+        if any(a is obj for a in chain):
+            return "a Section is its own ancestor"
+        root = chain[-1] if chain else obj
+        expected = root if is_doc(root) else None
+        if obj.document is not expected:
+            return "document is not the root of the parent chain"
+        if obj.parent is not obj._parent:
+            return "parent property disagrees with the stored parent"
+    return None
+
+
+def traversals_terminate(objs):
+    """Path/document/traversal queries (bounded by the per-path timeout of the engine)."""
+    for obj in closure(objs):
+        if is_doc(obj) or is_sec(obj):
+            obj.get_path()
+            count = 0
+            for _ in obj.itersections():
+                count += 1
+                if count > 200:
+                    raise Violation("itersections yields more than 200 sections (runaway traversal)")
+        elif is_prop(obj):
+            obj.get_path()
+
+
+def names_problems(objs):
+    """C04: sibling names unique, names truthy, ids canonical."""
+    for obj in closure(objs):
+        if not is_doc(obj):
+            if not obj.name:
+                return "empty name"
+        try:
+            canon = str(_uuid.UUID(obj.id))
+        except (ValueError, AttributeError, TypeError):
+            return "id is not a UUID string"
+        if canon != obj.id:
+            return "id is not in canonical form"
+        for _kind, lst in child_lists(obj):
+            for i in range(len(lst)):
+                for j in range(i + 1, len(lst)):
+                    if lst[i].name == lst[j].name:
+                        return "two siblings share a name"
+    return None
+
+
+# --------------------------------------------------------------------------
+# snapshots (C06 frame condition, C11/C12/C13 comparisons)
+
+SEC_ATTRS = ("_name", "_id", "type", "_definition", "_reference", "_repository", "_link",
+             "_include", "_sec_cardinality", "_prop_cardinality")
+PROP_ATTRS = ("_name", "_id", "_dtype", "_unit", "_uncertainty", "_reference", "_definition",
+              "_dependency", "_dependency_value", "_value_origin", "_val_cardinality")
+DOC_ATTRS = ("_id", "_author", "_version", "_date", "_repository")
+
+
+def snapshot(objs):
+    """Identity-based image of the object graph reachable from objs."""
+    allobjs = closure(objs)
+    snap = []
+    for obj in allobjs:
+        entry = {"obj": obj}
+        if is_doc(obj):
+            entry["attrs"] = tuple(getattr(obj, a, None) for a in DOC_ATTRS)
+            entry["parent"] = None
+        elif is_sec(obj):
+            entry["attrs"] = tuple(getattr(obj, a, None) for a in SEC_ATTRS)
+            entry["parent"] = obj._parent
+            entry["merged"] = obj._merged
+        else:
+            entry["attrs"] = tuple(getattr(obj, a, None) for a in PROP_ATTRS)
+            entry["parent"] = obj._parent
+            entry["values"] = [list(x) if isinstance(x, list) else x for x in obj._values]
+        entry["children"] = [(kind, lst) for kind, lst in child_lists(obj)]
+        snap.append(entry)
+    return snap
+
+
+def _same_value(a, b):
+    if a is b:
+        return True
+    if type(a) is not type(b) and not (isinstance(a, str) and isinstance(b, str)):
+        # ints vs bools etc. count as different; proxies of str compare as str
+        if not (isinstance(a, (int, float)) and isinstance(b, (int, float))
+                and not isinstance(a, bool) and not isinstance(b, bool)):
+            return False
+    if isinstance(a, (list, tuple)):
+        if len(a) != len(b):
+            return False
+        return all(_same_value(x, y) for x, y in zip(a, b))
+    return bool(a == b)
+
+
+def snapshot_diff(before, after):
+    """First difference between two snapshots, or None."""
+    if len(before) != len(after):
+        return "the set of reachable objects changed (%d -> %d)" % (len(before), len(after))
+    for ent in before:
+        other = None
+        for cand in after:
+            if cand["obj"] is ent["obj"]:
+                other = cand
+                break
+        if other is None:
+            return "an object is no longer reachable"
+        if other["parent"] is not ent["parent"]:
+            return "a parent pointer changed"
+        if len(other["children"]) != len(ent["children"]):
+            return "child lists changed"
+        for (k1, l1), (k2, l2) in zip(ent["children"], other["children"]):
+            if len(l1) != len(l2) or any(x is not y for x, y in zip(l1, l2)):
+                return "a child list (%s) changed" % k1
+        if not _same_value(ent["attrs"], other["attrs"]):
+            return "an attribute changed"
+        if "values" in ent and not _same_value(ent["values"], other["values"]):
+            return "values changed"
+        if ent.get("merged") is not other.get("merged"):
+            return "merge link changed"
+    return None
+
+
+# --------------------------------------------------------------------------
+# symbolic pre-states built through the public API only
+
+def sym_name(v, key, maxlen, others=(), allow_id_of=True, minlen=0):
+    """A symbolic name: free string, or the id of an earlier object."""
+    if allow_id_of and others:
+        k = v.choice(key + ".kind", 1 + len(others))
+        if k > 0:
+            return others[k - 1].id
+    return v.str(key, maxlen, minlen=minlen)
+
+
+class Universe(object):
+    def __init__(self):
+        self.docs = []
+        self.secs = []
+        self.props = []
+
+    @property
+    def containers(self):
+        return self.docs + self.secs
+
+    @property
+    def all(self):
+        return self.docs + self.secs + self.props
+
+
+def build_universe(v, n_docs=1, n_secs=3, n_props=0, name_len=1,
+                   id_names=True, sec_types=("t",), name_alphabet=None, name_minlen=0):
+    """
+    Append fresh detached objects in index order; the parent of object i is
+    'detached' or any earlier container.  Every ordered forest with unique
+    sibling names is the result of such a construction (number the nodes
+    breadth first).  A pre-state that the API refuses (name clash) is not a
+    valid state and is dropped by assumption.  The shape index is split over
+    the shards of the obligation.
+    """
+    import odml
+    radices = [1 + n_docs + i for i in range(n_secs)] + [1 + n_secs] * n_props
+    total = 1
+    for r in radices:
+        total *= r
+    idx = v.sharded_choice("shape", total)
+    shape = []
+    for r in radices:
+        shape.append(idx % r)
+        idx //= r
+    v.note("shape", list(shape))
+    uni = Universe()
+    for _ in range(n_docs):
+        uni.docs.append(odml.Document())
+    for i in range(n_secs):
+        if name_alphabet is not None:
+            name = v.str("sname%d" % i, name_len, name_alphabet, minlen=1)
+        else:
+            name = sym_name(v, "sname%d" % i, name_len, uni.secs if id_names else (), minlen=name_minlen)
+        stype = sec_types[0] if len(sec_types) == 1 else v.pick("stype%d" % i, sec_types)
+        sec = odml.Section(name=name, type=stype)
+        conts = uni.containers
+        where = shape[i]
+        if where > 0:
+            try:
+                conts[where - 1].append(sec)
+            except KeyError:
+                v.assume(False)
+        uni.secs.append(sec)
+    for i in range(n_props):
+        if name_alphabet is not None:
+            name = v.str("pname%d" % i, name_len, name_alphabet, minlen=1)
+        else:
+            name = sym_name(v, "pname%d" % i, name_len, uni.props if id_names else (), minlen=name_minlen)
+        prop = odml.Property(name=name, values=[1])
+        where = shape[n_secs + i]
+        if where > 0:
+            try:
+                uni.secs[where - 1].append(prop)
+            except KeyError:
+                v.assume(False)
+        uni.props.append(prop)
+    return uni
